@@ -746,6 +746,24 @@ type verifC10H struct {
 	attrib map[string]int
 }
 
+// viol reports a violation, at most 3 times per (oracle, key) and shard: the
+// shared runtime keeps only the first 50 violations of a shard and the driver
+// de-duplicates by (oracle, key) anyway, so repeats of one fingerprint (e.g. a
+// known finding) must not crowd out a new one.
+func (h *verifC10H) viol(oracle, key, detail string, wit any) {
+	if h.attrib == nil {
+		h.vc.Violation(oracle, key, detail, wit)
+		return
+	}
+	k := oracle + "\x00" + key
+	h.attrib[k]++
+	if h.attrib[k] > 3 {
+		h.vc.Count("suppressed_repeat_violations", 1)
+		return
+	}
+	h.vc.Violation(oracle, key, detail, wit)
+}
+
 func (h *verifC10H) witness(tg verifC10Target, class string, b []byte) map[string]any {
 	hx := verifHex(b)
 	if len(hx) > 4096 {
@@ -779,7 +797,7 @@ func (h *verifC10H) checkBytes(tg verifC10Target, class string, b []byte, measur
 		vc.Max("alloc_per_decode", d)
 		vc.Count("alloc_evals", 1)
 		if d > 64<<20 {
-			vc.Violation("alloc_bound", tg.Name, fmt.Sprintf(
+			h.viol("alloc_bound", tg.Name, fmt.Sprintf(
 				"%d bytes allocated while decoding a %d-byte input", d, len(b)),
 				h.witness(tg, class, b))
 		} else if d > 4<<20 {
@@ -817,7 +835,7 @@ func (h *verifC10H) checkBytes(tg verifC10Target, class string, b []byte, measur
 		if strings.Contains(err.Error(), verifC10Grows) {
 			key += "|" + verifC10Grows
 		}
-		vc.Violation("fixpoint_reencode", key, fmt.Sprintf(
+		h.viol("fixpoint_reencode", key, fmt.Sprintf(
 			"decode accepted the input but the decoded message does not encode: %v", err),
 			h.witness(tg, class, b))
 		return true, nil
@@ -828,7 +846,7 @@ func (h *verifC10H) checkBytes(tg verifC10Target, class string, b []byte, measur
 		return true, b1
 	}
 	if err != nil {
-		vc.Violation("fixpoint_redecode", actual, fmt.Sprintf(
+		h.viol("fixpoint_redecode", actual, fmt.Sprintf(
 			"b->m1->b1: decode(b1) failed: %v; b1=%s", err, verifHex(b1[:min(len(b1), 512)])),
 			h.witness(tg, class, b))
 		return true, b1
@@ -843,7 +861,7 @@ func (h *verifC10H) checkBytes(tg verifC10Target, class string, b []byte, measur
 		for d < len(b1) && d < len(b2) && b1[d] == b2[d] {
 			d++
 		}
-		vc.Violation("fixpoint_bytes", actual, fmt.Sprintf(
+		h.viol("fixpoint_bytes", actual, fmt.Sprintf(
 			"b1 != b2 (err=%v) len(b1)=%d len(b2)=%d first difference at %d; b1=%s b2=%s",
 			err, len(b1), len(b2), d, verifHex(b1[:min(len(b1), 400)]),
 			verifHex(b2[:min(len(b2), 400)])), h.witness(tg, class, b))
@@ -879,7 +897,7 @@ func (h *verifC10H) checkLossless(tg verifC10Target, v any) (b0 []byte, ok bool)
 		// "Every well-formed message value encodes to at most 65535
 		// bytes": lnwire's own generators only build well-formed
 		// values (its TestLightningWireProtocol requires the same).
-		vc.Violation("lossless_encode", tg.Name, fmt.Sprintf(
+		h.viol("lossless_encode", tg.Name, fmt.Sprintf(
 			"a generated well-formed value does not encode: %v\n%+v", err, v), wit)
 		return nil, false
 	}
@@ -887,7 +905,7 @@ func (h *verifC10H) checkLossless(tg verifC10Target, v any) (b0 []byte, ok bool)
 	wit["len"] = len(b0)
 	vc.Count("lossless_evals", 1)
 	if len(b0) > 65535 {
-		vc.Violation("lossless_size", tg.Name, fmt.Sprintf("encoded %d bytes", len(b0)), wit)
+		h.viol("lossless_size", tg.Name, fmt.Sprintf("encoded %d bytes", len(b0)), wit)
 	}
 	if vc.Guard("no_panic", tg.Name+"|decode-valid", wit, func() {
 		m, err = tg.decode(b0)
@@ -895,19 +913,19 @@ func (h *verifC10H) checkLossless(tg verifC10Target, v any) (b0 []byte, ok bool)
 		return b0, false
 	}
 	if err != nil {
-		vc.Violation("lossless_decode", tg.Name, fmt.Sprintf(
+		h.viol("lossless_decode", tg.Name, fmt.Sprintf(
 			"a generated value encodes but its encoding does not decode: %v", err), wit)
 		return b0, false
 	}
 	b1, _, err = tg.encode(m)
 	if err != nil || !bytes.Equal(b0, b1) {
-		vc.Violation("lossless_bytes", tg.Name, fmt.Sprintf(
+		h.viol("lossless_bytes", tg.Name, fmt.Sprintf(
 			"v->b0->m->b1 with b0 != b1 (err=%v); b1=%s", err,
 			verifHex(b1[:min(len(b1), 2048)])), wit)
 		return b0, false
 	}
 	if ok, p := verifC10Eq(reflect.ValueOf(v), reflect.ValueOf(m), "", 0); !ok {
-		vc.Violation("lossless_value", tg.Name+"|"+p, fmt.Sprintf(
+		h.viol("lossless_value", tg.Name+"|"+p, fmt.Sprintf(
 			"decoded value differs from the generated one at %s\nwant %+v\ngot  %+v", p, v, m), wit)
 		return b0, false
 	}
@@ -1284,7 +1302,7 @@ func (h *verifC10H) checkExt(r *verifRng, tg verifC10Target, b0 []byte) {
 				vc.Count("attributed:"+key, 1)
 				h.attrib[key]++
 				if h.attrib[key] <= 2 {
-					vc.Violation("ext_accept_implies_canonical", key, detail, wit)
+					h.viol("ext_accept_implies_canonical", key, detail, wit)
 				}
 			case verifC10BigSizeRecs[tg.Msg] != nil &&
 				verifC10WalkLenientBigSize(e2, verifC10BigSizeRecs[tg.Msg], nil):
@@ -1295,10 +1313,10 @@ func (h *verifC10H) checkExt(r *verifRng, tg verifC10Target, b0 []byte) {
 				vc.Count("attributed:"+key, 1)
 				h.attrib[key]++
 				if h.attrib[key] <= 2 {
-					vc.Violation("ext_accept_implies_canonical", key, detail, wit)
+					h.viol("ext_accept_implies_canonical", key, detail, wit)
 				}
 			default:
-				vc.Violation("ext_accept_implies_canonical", actual+"|"+rule, detail, wit)
+				h.viol("ext_accept_implies_canonical", actual+"|"+rule, detail, wit)
 			}
 			continue
 		}
@@ -1347,7 +1365,7 @@ func (h *verifC10H) runCase(r *verifRng, tg verifC10Target, tgs []verifC10Target
 		// oracle (its fixpoint must be itself).
 		acc, b1 := h.checkBytes(tg, "valid", b0, true)
 		if acc && b1 != nil && !bytes.Equal(b1, b0) && tg.Kind != 2 {
-			vc.Violation("lossless_bytes", tg.Name, "valid encoding is not its own fixpoint",
+			h.viol("lossless_bytes", tg.Name, "valid encoding is not its own fixpoint",
 				h.witness(tg, "valid", b0))
 		}
 	}
